@@ -12,10 +12,10 @@ key exactly when they are equal, so a Hash finds a key iff it contains an equal 
 neither merge distinct values nor keep equal ones apart (NaN and Sensitive excepted).
 
 Model: `Pcore/Model/ValueEq.lean` — `veq` (the `Equals` methods), `key`/`kb` (`px.ToKey` byte for byte), `hashGet`,
-`unique`; Timespan (compared and keyed by whole seconds) and Timestamp values; types as values (`tyEq`, `tyKey`) for 37 type
+`unique`; Timespan (compared and keyed by whole seconds) and Timestamp values; types as values (`tyEq`, `tyKey`) for 38 type
 kinds: Any Undef String String[size] String['v'] Integer Float Enum Array Variant Tuple Optional Type, Default Unit Scalar ScalarData
 Numeric Binary Data RichData SemVerRange, Boolean Collection NotUndef Sensitive Iterable Iterator Regexp Pattern TypeReference
-SemVer[range] Hash Like Runtime Callable[params] Struct;
+SemVer[range] Hash Like Runtime Callable Struct Init[T];
 URI, SemVer, SemVerRange (`Model/ValueEqVer.lean`: `semver.NewVersion3`, `Version.Equals/ToString`, `VersionRange.Equals/ToNormalizedString`),
 TypedName, Deferred, Parameter and instances of Object types (no hash key: `key = none`, i.e. `INVALID_MAP_KEY`);
 the lazily built index of a Hash (`Model/ValueEqCache.lean`).
@@ -58,7 +58,7 @@ Full statement / proved / missing
   (`Generated/KeyTable.lean`: the `HkXxx` constants and the leading bytes each `ToKey` writes): they are the bytes the
   model writes, and the eleven kinds have pairwise distinct two-byte heads.  A change of a prefix byte in the code breaks
   this obligation.
-* `C07_type_key_iff` now ranges over the 37 type kinds listed above (`C07_callable_key_iff`, `C07_semver_type_repaired`,
+* `C07_type_key_iff` now ranges over the 38 type kinds listed above (`C07_callable_key_iff`, `C07_semver_type_repaired`,
   `C07_runtime_repaired`, `C07_callable_repaired`, `C07_struct_key_repaired`: the former witnesses of six findings of this round,
   all repaired in /repo).
 * `C07_get/includes/equals_cache_independent`, `C07_forced_same`, `C07_includes_key`, `C07_put_coherent`,
@@ -634,6 +634,12 @@ def modelHeads : List (String × List Nat) := [
 
 theorem C07_key_table_ok : Pcore.Generated.keyHeads = modelHeads := by decide
 
+/-- `Init` / `Init[T]` (without arguments) is inside too: the absent type is not the type Any -/
+example : tyEq (.init false .any) (.init true .any) = false ∧ tyKey (.init false .any) ≠ tyKey (.init true .any) ∧
+    tyEq (.init true (.var [.str, .undef])) (.init true (.var [.undef, .str])) = true := by decide
+example : tyKey (.init true (.var [.str, .undef])) = tyKey (.init true (.var [.undef, .str])) :=
+  (C07_type_key_iff _ _ (by decide) (by decide)).mpr (by decide)
+
 /-- the name every type key starts with is the literal the Go `Name()` method returns (regenerated on every run) -/
 def bytesStr (bs : Bytes) : String := String.ofList (bs.map fun c => Char.ofNat c.toNat)
 def modelTypeNames : List (String × String) := [
@@ -648,7 +654,7 @@ def modelTypeNames : List (String × String) := [
   ("IteratorType", bytesStr (Ty.un .iterator .any).name), ("RegexpType", bytesStr (Ty.rx []).name), ("PatternType", bytesStr (Ty.pattern []).name),
   ("TypeReferenceType", bytesStr (Ty.tref []).name), ("SemVerType", bytesStr (Ty.semverT [] []).name), ("HashType", bytesStr (Ty.hash .any .any 0 0).name),
   ("LikeType", bytesStr (Ty.like .any []).name), ("CallableType", bytesStr calD.name), ("RuntimeType", bytesStr (Ty.runtime [] [] none).name),
-  ("StructType", bytesStr (Ty.struct []).name)]
+  ("StructType", bytesStr (Ty.struct []).name), ("InitType", bytesStr (Ty.init false .any).name)]
 theorem C07_type_names_ok : Pcore.Generated.typeNames = modelTypeNames := by decide
 
 /-- sixteen kinds, sixteen different two-byte heads (Array = HashEntry, Tuple = every other type, true/false share one) -/
